@@ -1,7 +1,7 @@
 (* C04 — stop() is a barrier and is final. Statements only; proofs in WorldStop.v, WorldQueue.v.
    `pool_idle w` is the condition under which the pool join of stop() returns in the model: the
    reducer loop and every effect task have finished (the 3 s timeout is not modelled). *)
-From RS Require Import Base Channel Pipeline Script World Hist WorldProofs WorldInv WorldQueue WorldStop.
+From RS Require Import Base Channel Pipeline Script World Hist WorldProofs WorldInv WorldQueue WorldStop WorldSubs WorldMetrics WorldEffects WorldFwdFinal.
 
 Section C04.
 Context {State : Type}.
@@ -38,11 +38,30 @@ Theorem C04_final : forall sched w w', stopped w -> run cfg w sched = Some w' ->
 Proof. exact (run_stopped cfg). Qed.
 
 (* C04_partial: deliveries to channeled subscribers after stop() are not covered by C04_final
-   (they are ECb (XChan _) events); that they cannot happen is the flush clause of C10, decided by
-   the lockstep correspondence and the C04/C10 monitors. *)
+   (they are ECb (XChan _) events): nothing is *forwarded* any more (C04_forwarding_is_final
+   below), and the release waited for the subscriber threads (C10_flush, C10_joins_wait); that no
+   delivery happens after stop() returned is stated for the code by the C04/C10 monitors. *)
+(* "channeled subscribers flushed ... from then on nothing changes" (WorldFwdFinal.v, every program
+   and schedule): once the reducer has left its loop - the shutdown release is in progress or over,
+   in particular once stop() has returned - nothing is forwarded to any subscription channel
+   any more: along every continuation the forwarded stream of every channeled subscriber and
+   iterator stays what it is (what they still receive was forwarded before; with C10_flush and
+   C10_joins_wait the release has waited until the channeled subscribers had received it) *)
+Theorem C04_stopped_is_releasing : forall (w : world (State := State)), stopped w -> releasing w.
+Proof. exact (stopped_releasing). Qed.
+
+Theorem C04_forwarding_is_final : forall reducers mws progs sched (w w' : world (State := State)),
+  length progs <= 100 -> reachable cfg reducers mws progs w -> releasing w -> run cfg w sched = Some w' ->
+  releasing w' /\ forall sid, fwd sid (w_hist w') = fwd sid (w_hist w).
+Proof.
+  intros reducers mws progs sched w w' L R RL H.
+  exact (forwarded_is_final cfg sched w w' (reachable_fresh cfg reducers mws progs w L R) RL H).
+Qed.
 End C04.
 
 Print Assumptions C04_close_protocol.
 Print Assumptions C04_barrier.
 Print Assumptions C04_stopped_at_return.
 Print Assumptions C04_final.
+Print Assumptions C04_stopped_is_releasing.
+Print Assumptions C04_forwarding_is_final.
